@@ -15,14 +15,19 @@
 package c03
 
 import (
+	"context"
 	"crypto/sha256"
 	"encoding/base64"
 	"net/url"
 	"regexp"
 
 	"github.com/ory/fosite"
+	"github.com/ory/fosite/compose"
+	"github.com/ory/fosite/handler/openid"
+	"github.com/ory/fosite/token/jwt"
 	"github.com/ory/fosite/zz_verif_h/world"
 	"github.com/ory/fosite/zz_verif_h/zz"
+	"github.com/ory/fosite/zz_verif_h/zzjwt"
 )
 
 const (
@@ -65,6 +70,7 @@ type st struct {
 	plainOK   bool // EnablePKCEPlainChallengeMethod
 	public    bool
 	client    string
+	hybrid    bool // OpenID Connect hybrid flow (response_type "code id_token")
 
 	challenge string // as sent ("" = none)
 	symChal   bool
@@ -72,20 +78,75 @@ type st struct {
 	code      string
 }
 
-func newState() *st {
-	s := &st{}
+func newState(hybrid bool) *st {
+	s := &st{hybrid: hybrid}
 	s.enforce = zz.Bool("cfg.enforce")
 	s.enforcePC = zz.Bool("cfg.enforcePublic")
 	s.plainOK = zz.Bool("cfg.plain")
 	s.public = zz.Bool("client.public")
-	s.w = world.New(world.Options{Tweak: func(cfg *fosite.Config) {
+	opt := world.Options{Tweak: func(cfg *fosite.Config) {
 		cfg.EnforcePKCE = s.enforce
 		cfg.EnforcePKCEForPublicClients = s.enforcePC
 		cfg.EnablePKCEPlainChallengeMethod = s.plainOK
-	}})
+	}}
+	if hybrid {
+		priv, _ := zzjwt.GenKey(zzjwt.RSA)
+		getter := func(context.Context) (interface{}, error) { return priv, nil }
+		opt.TweakStrategy = func(cs *compose.CommonStrategy, cfg *fosite.Config) {
+			cs.OpenIDConnectTokenStrategy = compose.NewOpenIDConnectStrategy(getter, cfg)
+			cs.Signer = &jwt.DefaultSigner{GetPrivateKey: getter}
+		}
+		// compose order of ComposeAllEnabled: every handler that issues a code precedes the PKCE handler
+		opt.Factories = []compose.Factory{
+			compose.OAuth2AuthorizeExplicitFactory,
+			compose.OAuth2AuthorizeImplicitFactory,
+			compose.OAuth2RefreshTokenGrantFactory,
+			compose.OpenIDConnectHybridFactory,
+			compose.OAuth2TokenIntrospectionFactory,
+			compose.OAuth2PKCEFactory,
+		}
+	}
+	s.w = world.New(opt)
 	s.client = "c1"
 	s.w.Store.Clients["c1"].(*fosite.DefaultClient).Public = s.public
 	return s
+}
+
+// authorizeCall runs the authorization endpoint for the flow of this run and returns the code.
+func (s *st) authorizeCall(extra url.Values) (string, error) {
+	if !s.hybrid {
+		code, _, err := s.w.AuthorizeCode(s.client, []string{"offline", "photos"}, extra)
+		return code, err
+	}
+	form := url.Values{
+		"client_id":     {s.client},
+		"response_type": {"code id_token"},
+		"redirect_uri":  {"https://" + s.client + ".example/cb"},
+		"scope":         {"openid offline photos"},
+		"state":         {"state-0123456789"},
+		"nonce":         {"nonce-0123456789"},
+	}
+	for k, v := range extra {
+		form[k] = v
+	}
+	ar, err := s.w.Provider.NewAuthorizeRequest(s.w.Ctx, world.Get(form))
+	if err != nil {
+		return "", err
+	}
+	for _, sc := range ar.GetRequestedScopes() {
+		ar.GrantScope(sc)
+	}
+	sess := &openid.DefaultSession{
+		Claims:  &jwt.IDTokenClaims{Subject: "peter"},
+		Headers: &jwt.Headers{Extra: map[string]interface{}{}},
+		Subject: "peter",
+	}
+	resp, err := s.w.Provider.NewAuthorizeResponse(s.w.Ctx, ar, sess)
+	if err != nil {
+		return "", err
+	}
+	zz.Assert(resp.GetParameters().Get("id_token") != "", "hybrid: the authorization response carries an ID Token")
+	return resp.GetCode(), nil
 }
 
 // enforced: PKCE is required for this client.
@@ -142,7 +203,7 @@ func (s *st) authorize(symbolicChallenge bool) bool {
 		s.method = "S512"
 		extra.Set("code_challenge_method", "S512")
 	}
-	code, _, err := s.w.AuthorizeCode(s.client, []string{"offline", "photos"}, extra)
+	code, err := s.authorizeCall(extra)
 	zz.Observe("authz.err", world.ErrName(err))
 	if err != nil {
 		zz.Cover("authz:refused", true)
@@ -177,7 +238,7 @@ func (s *st) attempt(i int, symbolicVerifier bool) bool {
 		"redirect_uri": {"https://" + s.client + ".example/cb"},
 	}
 	var v string
-	absent := false
+	absent, symV := false, false
 	nKinds := 8
 	if symbolicVerifier {
 		nKinds = 9
@@ -211,6 +272,7 @@ func (s *st) attempt(i int, symbolicVerifier bool) bool {
 		// (and themselves, kind 6), the symbolic verifier meets the challenges the harness computed.
 		zz.Assume(!s.symChal)
 		v = v0[:symPrefix] + zz.String("verifier.tail", symTail)
+		symV = true
 	}
 	if !absent {
 		form.Set("code_verifier", v)
@@ -218,6 +280,20 @@ func (s *st) attempt(i int, symbolicVerifier bool) bool {
 	resp, err := s.w.Token(s.client, "", form)
 	zz.Observe("attempt.err", world.ErrName(err))
 	ok := err == nil
+	if symV {
+		if ok {
+			zz.Cover("attempt:symbolic-verifier-accepted", true)
+		} else {
+			zz.Cover("attempt:symbolic-verifier-refused", true)
+		}
+	}
+	if s.symChal && s.challenge != "" {
+		if ok {
+			zz.Cover("attempt:symbolic-challenge-redeemed", true)
+		} else {
+			zz.Cover("attempt:symbolic-challenge-refused", true)
+		}
+	}
 	if ok {
 		zz.Assert(resp.GetAccessToken() != "", "success carries an access token")
 		if i > 0 {
@@ -255,8 +331,8 @@ func (s *st) attempt(i int, symbolicVerifier bool) bool {
 	return ok
 }
 
-func run(k int, symbolic bool) {
-	s := newState()
+func run(k int, symbolic, hybrid bool) {
+	s := newState(hybrid)
 	if !s.authorize(symbolic) {
 		return
 	}
@@ -272,9 +348,9 @@ func run(k int, symbolic bool) {
 // ZZ_C03_attempts: concrete verifier family, k = 2 (quick) / 3 (thorough) attempts on one code.
 func ZZ_C03_attempts() {
 	if zz.Thorough() {
-		run(3, false)
+		run(3, false, false)
 	} else {
-		run(2, false)
+		run(2, false, false)
 	}
 }
 
@@ -282,8 +358,14 @@ func ZZ_C03_attempts() {
 // k = 1 (quick) / 2 (thorough).
 func ZZ_C03_symbolic() {
 	if zz.Thorough() {
-		run(2, true)
+		run(2, true, false)
 	} else {
-		run(1, true)
+		run(1, true, false)
 	}
+}
+
+// ZZ_C03_hybrid_T (thorough only): the same histories for a code issued by the OpenID Connect hybrid
+// flow (response_type "code id_token"), handlers composed in the order of compose.ComposeAllEnabled.
+func ZZ_C03_hybrid_T() {
+	run(2, false, true)
 }
